@@ -71,6 +71,13 @@ class OtherLibrary:
         pass
 
 
+class InjectedChild(InjectedError):
+    """subclass of InjectedError: a failure of this type must still be caught by `except InjectedChild`"""
+
+    def __reduce__(self):
+        return (InjectedChild, (self.msg, self.code))
+
+
 class Unpicklable(Exception):
     def __init__(self, msg):
         super().__init__(msg)
@@ -92,6 +99,10 @@ def make_exc(kind, msg):
         return Unpicklable(msg)
     if kind == "ZeroDivisionError":
         return ZeroDivisionError(msg)
+    if kind == "child":
+        return InjectedChild(msg, 8)
+    if kind in ("ArithmeticError", "LookupError", "IndexError"):
+        return EXC_TYPES[kind](msg)
     raise ValueError(kind)
 
 
@@ -103,6 +114,10 @@ EXC_TYPES = {
     "keyboard": KeyboardInterrupt,
     "unpicklable": Unpicklable,
     "ZeroDivisionError": ZeroDivisionError,
+    "ArithmeticError": ArithmeticError,
+    "LookupError": LookupError,
+    "IndexError": IndexError,
+    "child": InjectedChild,
 }
 
 
